@@ -32,6 +32,15 @@ CHECKS = {
              'contract (cross-checked). Two genuine defects were repaired by fix: commits 72d663b and 30237fb. OS-level failures (missing '
              'file, encoding) and --optimize/--solve are outside the model.',
         design='DESIGN.md §6 C18'),
+    'C14': dict(
+        technique='Lean 4 proof about an executable model of ASPAtom.__str__ in both modes + correspondence on generated and harvested atoms; both-mode compilation search',
+        text='Lean theorems for every atom (any number of anonymous or repeated arguments, origins nested to any depth, any name equality): the leaves '
+             'of the function-mode term are a permutation of the default-mode arguments (nothing dropped or duplicated); flattening gives back the '
+             'default atom exactly when inherited groups are contiguous; the nesting shape depends on the name and origins only.',
+        note='Trusted: Lean kernel; correspondence harness (real str(ASPAtom) in both modes on ~1500 random atoms and every atom harvested from '
+             'corpus + wide-generator compilations per quick run); NameComponent.__eq__ (inflect) enters as a parameter. A genuine defect (F8) was '
+             'repaired by fix: commit c870dde. Partial: non-contiguous groups are reordered by design (finding F20, witness Findings/C14.lean).',
+        design='DESIGN.md §6 C14'),
 }
 
 NOT_YET = {}
